@@ -90,11 +90,12 @@ def _minimise_job(job):
     return mod.minimise(job["pid"], job["desc"], job["cls"])
 
 
-def fresh_digests(pid, tier, seed, idxs, n_override, hashseed):
+def fresh_digests(pid, tier, seed, idxs, n_override, hashseed, field="digest"):
     env = dict(os.environ)
     env["PYTHONHASHSEED"] = str(hashseed)
     env["VERIF_SEED"] = str(seed)
-    cmd = [sys.executable, os.path.abspath(__file__), pid, "--tier", tier, "--digests", ",".join(map(str, idxs))]
+    cmd = [sys.executable, os.path.abspath(__file__), pid, "--tier", tier, "--digests", ",".join(map(str, idxs)),
+           "--field", field]
     if n_override:
         cmd += ["--n", str(n_override)]
     p = subprocess.run(cmd, env=env, capture_output=True, text=True, timeout=900)
@@ -111,6 +112,8 @@ def main(argv=None):
     ap.add_argument("--n", type=int, default=None)
     ap.add_argument("--jobs", type=int, default=int(os.environ.get("VERIF_JOBS") or 16))
     ap.add_argument("--digests", default=None, help="internal: print digests of the given job indices")
+    ap.add_argument("--field", default="digest", help="internal: which field --digests prints")
+    ap.add_argument("--result-digest-of", default=None, help="internal (C07): result digest of run A of a descriptor file")
     ap.add_argument("--no-determinism", action="store_true")
     ap.add_argument("--no-evidence", action="store_true")
     ap.add_argument("--evidence-dir", default=os.path.join(HERE, "evidence"))
@@ -126,6 +129,13 @@ def main(argv=None):
 
     if args.replay:
         return do_replay(pid, args.replay)
+    if args.result_digest_of:
+        from checks import mod_p
+        install.install()
+        st = {}
+        mod_p.run_c07(json.load(open(args.result_digest_of)), st)
+        print(st.get("result_digest"))
+        return 0
 
     mod = get_module(pid)
     install.install()
@@ -137,7 +147,7 @@ def main(argv=None):
         out = {}
         for i in idxs:
             r = mod.run_job(jobs[i])
-            out[str(i)] = r.get("digest")
+            out[str(i)] = r.get(args.field)
         print(json.dumps(out))
         return 0
 
@@ -183,6 +193,37 @@ def main(argv=None):
             if k not in per_class:
                 per_class[k] = {"cls": v["cls"], "msg": v["msg"], "desc": v.get("desc"), "n": v.get("n", 1),
                                 "job": v.get("job", -1), "seed": v.get("seed", seed), "no_minimise": True}
+
+    # --- C07, "in different processes": run A of a sample of jobs is repeated in a fresh interpreter with another
+    #     hash salt; a different result is a randomness source that escapes the seed
+    cross = {"jobs": 0, "diverged": 0}
+    if pid == "C07" and hasattr(mod, "cross_process_sample"):
+        idxs = mod.cross_process_sample(jobs, results)
+        if idxs:
+            try:
+                fd = fresh_digests(pid, args.tier, seed, idxs, args.n, hashseed=777, field="result_digest")
+                for i_s, dg in fd.items():
+                    cross["jobs"] += 1
+                    r = results[int(i_s)]
+                    if dg != r.get("result_digest"):
+                        cross["diverged"] += 1
+                        desc = dict(mod.make_desc(jobs[int(i_s)]), cross_process=True)
+                        cls = [desc["optimizer"], "diverged", "across_processes"]
+                        if known.lookup(cls) is not None:
+                            known.note(known.lookup(cls))
+                            continue
+                        k = json.dumps(cls)
+                        if k not in per_class:
+                            per_class[k] = {"cls": cls, "n": 0, "job": int(i_s), "seed": jobs[int(i_s)]["seed"],
+                                            "desc": desc, "no_minimise": True,
+                                            "msg": f"run A (seed={desc['task'].get('seed')}, family "
+                                                   f"{desc['task'].get('family')}) gives result digest "
+                                                   f"{r.get('result_digest')} in this process (PYTHONHASHSEED="
+                                                   f"{os.environ.get('PYTHONHASHSEED')}) and {dg} in a fresh interpreter "
+                                                   f"with PYTHONHASHSEED=777"}
+                        per_class[k]["n"] += 1
+            except Exception as e:
+                harness_errors.append(f"cross-process slice: {e}")
 
     # --- timeouts: a run that cannot finish is a harness problem unless it reproduces without the farm
     for idx in timed_out:
@@ -252,6 +293,8 @@ def main(argv=None):
     if not args.no_evidence:
         ev = mod.evidence(pid, args.tier, seed, jobs, results, good, wall)
         ev["coverage"]["determinism"] = det
+        if pid == "C07":
+            ev["coverage"]["cross_process_pairs"] = cross
         ev["coverage"]["harness_timeouts"] = len(timed_out)
         ev["coverage"]["harness_errors"] = len(harness_errors)
         ev["coverage"]["known_findings_seen"] = {k: v for k, v in known.seen.items()}
